@@ -63,6 +63,8 @@ class FnInfo:
         self.unproved_anchor = None
         self.unproved_reason = None
         self.unproved_from_line = None
+        self.unproved_specs = []
+        self.unproved_regions = []
         self.unproved_end_anchor = None
         self.unproved_to_line = None
 
@@ -404,8 +406,19 @@ def build_fn(unit, file_spec, item_spec, opts, sections, log, probes=False):
             edits.append((pos, 9, [("", None), ("assert(false); // VP-PROBE %s" % what, c)]))
         want = ("requires" in secd) or any(re.match(r"loop\s+\d+$", k) for k in secd) or ("probe" in opts)
         tp = _tail_pos(masked, ob) if want else -1
+        ups = [re.match(r"unproved-from\s+`([^`]+)`", k) for k in secd]
+        ups = [text.find(m.group(1), ob) for m in ups if m]
+        ups = [u for u in ups if u >= 0]
         if not want:
             pass
+        elif ups:
+            # failing obligations inside a declared-unproved region are assumed by Verus afterwards (and hide later errors):
+            # probe the part of the body that is proved, just before the first region
+            u = min(ups)
+            ls = text.rfind("\n", 0, u) + 1
+            c = {"id": "probe:before-unproved", "kind": "probe", "text": "before the first declared-unproved region (precondition, axioms and callee contracts used so far are consistent)"}
+            info.probes.append(c)
+            edits.append((ls, 8, [("assert(false); // VP-PROBE before-unproved", c), ("", None)]))
         elif tp > ob + 1:
             ls = text.rfind("\n", 0, tp) + 1
             if text[ls:tp].strip() == "":
@@ -425,8 +438,8 @@ def build_fn(unit, file_spec, item_spec, opts, sections, log, probes=False):
     for key in secd:
         um = re.match(r"unproved-from\s+`([^`]+)`(?:\s+to\s+`([^`]+)`)?$", key)
         if um:
+            info.unproved_specs.append((um.group(1), um.group(2), " ".join(" ".join(secd[key]).split())))
             info.unproved_anchor = um.group(1)
-            info.unproved_end_anchor = um.group(2)
             info.unproved_reason = " ".join(" ".join(secd[key]).split())
     info.clauses.append({"id": "safety", "kind": "safety",
                          "text": "no overflow / out-of-bounds index / failed unwrap-expect / reachable panic! / violated callee precondition in the body"})
@@ -552,19 +565,21 @@ def assemble(unit, template_text=None, probes=False):
         out.append(text)
         cur_line += text.count("\n")
         info.line_end = cur_line
-        if info.unproved_anchor:
-            k = text.find(info.unproved_anchor)
-            if k >= 0:
-                info.unproved_from_line = info.line_start + text.count("\n", 0, k)
-                info.unproved_to_line = info.line_end
-                if info.unproved_end_anchor:
-                    k2 = text.find(info.unproved_end_anchor, k)
-                    if k2 >= 0:
-                        info.unproved_to_line = info.line_start + text.count("\n", 0, k2)
-                    else:
-                        info.lost.append("unproved-from end anchor `%s` not found" % info.unproved_end_anchor)
-            else:
-                info.lost.append("unproved-from anchor `%s` not found" % info.unproved_anchor)
+        for (a1, a2, why) in info.unproved_specs:
+            k = text.find(a1)
+            if k < 0:
+                info.lost.append("unproved-from anchor `%s` not found" % a1)
+                continue
+            l1 = info.line_start + text.count("\n", 0, k)
+            l2 = info.line_end
+            if a2:
+                k2 = text.find(a2, k)
+                if k2 >= 0:
+                    l2 = info.line_start + text.count("\n", 0, k2)
+                else:
+                    info.lost.append("unproved-from end anchor `%s` not found" % a2)
+            info.unproved_regions.append((l1, l2, why))
+            info.unproved_from_line, info.unproved_to_line = l1, l2
         if kind == "fn":
             for key, val in sections:
                 if key == "tags":
